@@ -136,11 +136,17 @@ class Recorder:
             self.samples.append(s)
 
     def deviation(self, prop, kind, detail, case=None):
-        key = (prop, kind)
-        self.dev_counts['%s|%s' % key] += 1
-        if sum(1 for d in self.deviations if (d['property'], d['kind']) == key) < self.MAX_PER_KIND:
-            self.deviations.append({'property': prop, 'kind': kind, 'detail': enc(detail),
-                                    'case': enc(case if case is not None else self.case)})
+        # Deviations are bucketed at record time by the open known finding they match (or 'unknown'),
+        # so that a flood of one known mechanism can never crowd an unlisted one out of the record.
+        d = {'property': prop, 'kind': kind, 'detail': enc(detail),
+             'case': enc(case if case is not None else self.case)}
+        bucket = known_bucket(d) or 'unknown'
+        key = '%s|%s|%s' % (prop, kind, bucket)
+        self.dev_counts['%s|%s%s' % (prop, kind, '' if bucket == 'unknown' else '|known:' + bucket)] += 1
+        self._stored = getattr(self, '_stored', collections.Counter())
+        if self._stored[key] < (self.MAX_PER_KIND if bucket != 'unknown' else 400):
+            self._stored[key] += 1
+            self.deviations.append(d)
 
     def dump(self):
         return {'counters': dict(self.counters), 'deviations': self.deviations,
@@ -249,9 +255,30 @@ def worker_main(pid, fin, fout, extra):
 
 
 # ---------------------------------------------------------- known findings
+_KNOWN = None
+
+
 def load_known():
-    with open(os.path.join(VERIF, 'known_findings.json')) as f:
-        return json.load(f)
+    global _KNOWN
+    if _KNOWN is None:
+        with open(os.path.join(VERIF, 'known_findings.json')) as f:
+            _KNOWN = json.load(f)
+    return _KNOWN
+
+
+def known_bucket(d):
+    """id of the open known finding whose classifier matches deviation `d`, else None."""
+    from vmon import findings
+    for k in load_known()['findings']:
+        if k['status'] == 'open' and k['property'] == d['property']:
+            fn = findings.CLASSIFIERS.get(k['id'])
+            if fn is not None:
+                try:
+                    if fn(dec(d)):
+                        return k['id']
+                except Exception:  # noqa: BLE001  a broken classifier must not hide anything
+                    pass
+    return None
 
 
 def classify(pid, deviations):
